@@ -36,7 +36,7 @@ TECHNIQUE = "Coq proof over an executable exact-rational model; in-Coq vm_comput
 RULE = ("case = (class B/E/G, raw matrix with optional taxa/taxa_grp labels — built by from_numpy, or (12%) by the constructor from stored values with an "
         "arbitrary location / positive scale —, list of taxa-axis operations with their operands) or (DenseScaledMatrix, "
         "matrix, location, scale, op list incl. copies); one PRNG; n in 0..20 (1,2 frequent; fixed cases with 130/260/300 taxa, thorough: random 128..300), t in 1..4; "
-        "per-trait column kinds: dyadic grid k/2^6, the grid scaled by 2^-40 or 2^20, 1 + k 2^-16, constant, few-valued "
+        "per-trait column kinds: dyadic grid k/2^6, the grid scaled by 2^-40 or 2^13, 1 + k 2^-16, constant, few-valued "
         "(ties), offset +-2^20 with step 8, NaN-sprinkled, all-NaN; operations select/delete/insert/adjoin (copies), remove/append/incorp (in place, on the SAME object "
         "whose summaries were just read), reorder_taxa / sort_taxa / group_taxa(+ungroup) (in place, no re-standardisation), copy/deepcopy (method and copy module) and "
         "re-assignment through the property setters, concat_taxa (self at any position among 0-2 other matrices); 20% of the operations go through the generic "
@@ -52,7 +52,7 @@ TRUSTED = ["the rounding-error theorem is about an abstract rounding operator wi
            "location / scale the implementation kept; the expected order of sort_taxa()/group_taxa() (taxa_grp, then taxa name, stable) is computed by the harness",
            "harness/translate/c15_kernel.py + pyexpr.py (ast -> Gallina, fail closed) and the entry-point enumeration (every method of the four anchored files and every "
            "inherited public routine is driven or listed in SKIPPED / INHERITED_SKIPPED with a reason)"]
-ASSUMPTIONS = ["raw values on dyadic grids (|x| <= 64 step 2^-6, that grid times 2^-40 or 2^20, 1 + k 2^-16, or +-2^20 offsets with step 8) so that the rounding error stays far below the tolerances",
+ASSUMPTIONS = ["raw values on dyadic grids (|x| <= 64 step 2^-6, that grid times 2^-40 or 2^13, 1 + k 2^-16, or +-2^20 offsets with step 8) so that the rounding error stays far below the tolerances",
                "trait-axis routines inherited by the breeding-value matrices (select_trait ... sort_trait) are outside the property (taxa-axis operations) and not driven",
                "ntrait >= 1; insert/incorp with an index list use as many value rows as indices (numpy broadcasting of a single row not generated)",
                "numpy.insert does not validate an index *list* (entries below -n wrap around in the enlarged array): such a step is not modelled, "
@@ -74,7 +74,7 @@ REL36 = Fraction(1, 2 ** 36)       # ... maximum, minimum, mean, range on the or
 def _colkind(rng):
     k = rng.random()
     if k < 0.05: return ("tiny",)                       # k/64 * 2^-40: anything like isclose()/a tolerance instead of the exact zero-scale test shows
-    if k < 0.09: return ("huge",)                       # k/64 * 2^20
+    if k < 0.09: return ("huge",)                       # k/64 * 2^13 (|x| < 2^19: one ulp stays far below the 2^-30 tolerance of a constant trait's stored zeros)
     if k < 0.13: return ("nearone", rng.choice([1.0, -3.0]))     # base + k * 2^-16: spread far below the offset, still exact
     if k < 0.30: return ("grid",)
     if k < 0.48: return ("const", rng.choice([0.0, 1.0, -2.5, 5.0, 37.125, float(2 ** 20), -1048571.0]))
@@ -86,7 +86,7 @@ def _colkind(rng):
 def _val(rng, kind, fresh_const=False):
     if kind[0] == "grid": return rng.randint(-4096, 4096) / 64.0
     if kind[0] == "tiny": return rng.randint(-4096, 4096) / 64.0 * 2.0 ** -40
-    if kind[0] == "huge": return rng.randint(-4096, 4096) / 64.0 * 2.0 ** 20
+    if kind[0] == "huge": return rng.randint(-4096, 4096) / 64.0 * 2.0 ** 13
     if kind[0] == "nearone": return kind[1] + rng.randint(-16, 16) * 2.0 ** -16
     if kind[0] == "const": return (kind[1] + rng.choice([1.0, -0.5, 8.0])) if fresh_const else kind[1]
     if kind[0] == "few": return kind[1] + rng.choice([-1.0, 0.0, 0.0, 1.0, 2.0])
@@ -160,10 +160,14 @@ def _gen_bv(rng, tier, more_inplace):
     nanrate = [rng.choice([0.0, 0.0, 0.0, 0.25, 0.5]) for _ in range(t)]
     n = _size(rng, tier)
     has_taxa, has_grp = rng.random() < 0.6, rng.random() < 0.5
+    if n > 100:
+        # with hundreds of taxa one deviating value gives a spread of ~1/sqrt(n): keep the offset / spread ratio inside the tolerance regime
+        kinds = [("const", 37.125) if (kd[0] == "const" and abs(kd[1]) > 1024) else kd for kd in kinds]
     raw = _rows(rng, n, kinds, nanrate)
     taxa, grp = _labels(rng, ids, n, has_taxa, has_grp)
     case = {"kind": "bv", "cls": cls, "t": t, "raw": raw, "taxa": taxa, "grp": grp, "trait": rng.random() < 0.5, "ops": []}
-    if rng.random() < 0.12:
+    # (not for traits whose spread is far below 1: stored values next to a location of order 10 would leave the tolerance regime)
+    if rng.random() < 0.12 and not any(kd[0] in ("tiny", "nearone") for kd in kinds):
         # built by the constructor from stored values with an arbitrary location / positive scale (not standardised):
         # "raw" holds the stored matrix, the matrix stands for scale*raw+location
         case["direct"] = {"loc": [rng.randint(-64, 64) / 4.0 for _ in range(t)], "sc": [rng.choice([0.25, 0.5, 1.0, 2.0, 4.0, 1.5, 3.0]) for _ in range(t)]}
@@ -282,7 +286,7 @@ WITNESS_CONST = {"kind": "bv", "cls": "B", "t": 1, "raw": [[0.1], [0.1], [0.1]],
 
 def gen_cases(rng, tier):
     cases = []
-    N = 420 if tier == "quick" else 6000
+    N = 390 if tier == "quick" else 6000
     # fixed corners: every class, constant / NaN / offset columns, size 1, empty
     for cls in ("B", "E", "G"):
         cases.append({"kind": "bv", "cls": cls, "t": 3, "raw": [[1.0, 5.0, 3.0], [2.0, 5.0, None], [4.0, 5.0, 7.0]], "taxa": [0, 1, 2], "grp": [1, 1, 2],
@@ -307,13 +311,16 @@ def gen_cases(rng, tier):
                       "ops": [{"op": "append", "vals": [[10.0], [30.0]], "as": cls, "vtaxa": None, "vgrp": None, "ataxa": None, "agrp": None},
                               {"op": "concat", "self_pos": 0, "others": [{"cls": cls, "raw": [[1.0], [3.0]], "taxa": None, "grp": None}]}]})
     # more taxa than int8 / uint8 can count: the extrema sit beyond position 127 / 255, indices beyond 255 are selected and removed
+    # (spread over the case list so that they land in different correspondence shards)
+    big = []
     for cls, n in (("B", 130), ("E", 260), ("G", 300)):
         raw = [[float((7 * i) % 23), 5.0 if i != n - 2 else None] for i in range(n)]
         raw[n - 1][0] = 100.0; raw[n - 3][0] = -100.0
-        cases.append({"kind": "bv", "cls": cls, "t": 2, "raw": raw, "taxa": list(range(n)), "grp": [i % 3 for i in range(n)], "trait": False,
-                      "ops": [{"op": "select", "ix": list(range(n - 1, -1, -1))[: n - 1] + [-n], "ixform": "list"}, {"op": "remove", "obj": [n - 1, 0]},
-                              {"op": "reorder", "key": [3, 1, 2]}, {"op": "delete", "obj": {"slice": [None, None, 2]}}, {"op": "sort", "how": "group"}]})
+        big.append({"kind": "bv", "cls": cls, "t": 2, "raw": raw, "taxa": list(range(n)), "grp": [i % 3 for i in range(n)], "trait": False,
+                    "ops": [{"op": "select", "ix": list(range(n - 1, -1, -1))[: n - 1] + [-n], "ixform": "list"}, {"op": "remove", "obj": [n - 1, 0]},
+                            {"op": "delete", "obj": {"slice": [None, None, 2]}}, {"op": "sort", "how": "group"}]})
     for i in range(N):
+        if i % 100 == 60 and big: cases.append(big.pop())
         if i % 9 == 8: cases.append(_gen_scaled(rng, tier))
         else: cases.append(_gen_bv(rng, tier, more_inplace=(i % 4 == 3)))
     return cases
